@@ -2,9 +2,9 @@ from contracts.histories import ApiHistories, KfRemoveThroughParent
 from contracts.concat import ConcatHistories
 from contracts.removal import CONTRACTS as _R
 from contracts.tree import SweepDeadEntries, TypeInStoredRecords
-from contracts.repaired import ConcatNameSet, ConcatParentSet
+from contracts.repaired import ConcatNameSet, ConcatParentSet, PropertyGroupMembersSet
 from contracts.h5graph import FetchHandle as _FH, RemoveEntityW as _REW, RemoveChild as _RC
-CONTRACTS = list(_R) + [SweepDeadEntries, TypeInStoredRecords, ApiHistories, KfRemoveThroughParent, ConcatHistories] + [ConcatNameSet, ConcatParentSet] + [_FH, _REW, _RC]
+CONTRACTS = list(_R) + [SweepDeadEntries, TypeInStoredRecords, ApiHistories, KfRemoveThroughParent, ConcatHistories] + [ConcatNameSet, ConcatParentSet, PropertyGroupMembersSet] + [_FH, _REW, _RC]
 
 MANIFEST = {
     "category": "proof",
